@@ -102,6 +102,8 @@ def oracle(ctx, cases, impl, tags, subs, spec_tags, spec_subs):
         if out.startswith("panic"):
             fails.append(Failure(c, "panic: " + out))
             continue
+        if out.startswith("INCONSISTENT"):
+            continue        # reported by vlib.marker_failures with this case as the failing input
         if t[0] == "tag_parse":
             s = unhexs(t[1])
             if not s:
